@@ -520,8 +520,8 @@ func genRealJws(g *hx.Gen) {
 	} else {
 		name := hx.Pick(r, curves)
 		ek := ecFromSeed(r, name)
-		if r.Chance(1, 3) { // search for a coordinate with a leading zero byte
-			for i := 0; i < 2000; i++ {
+		if r.Chance(1, 8) { // search for a coordinate with a leading zero byte (the generator is single-threaded: keep it cheap)
+			for i := 0; i < 600; i++ {
 				n := coordBytes(name)
 				if len(ek.X.Bytes()) < n || len(ek.Y.Bytes()) < n {
 					g.Stat("real.ec-coordinate-with-leading-zero")
